@@ -1409,7 +1409,9 @@ impl Prop for C17 {
         }
 
         // ---- oracle 3: failure carries the last iterate (restart composition)
-        if !index_faults && !ok1 && k <= 50 {
+        // (only from a finite payload: the property says "at most" the configured iterations, so a solver may
+        // stop early once an iterate is non-finite — continuing from inf/NaN then proves nothing)
+        if !index_faults && !ok1 && k <= 50 && x1.iter().all(|v| v.is_finite()) {
             // one object, reconfigured through its setters between the calls ...
             let mut sess = solve_session(case, &[step_of(case, &case.guess, k), step_of(case, &x1, 1), step_of(case, &case.guess, k + 1)]);
             let longer = sess.pop().unwrap();
